@@ -142,7 +142,7 @@ func (m *AppPlacementManager) PlaceApplication(app *objects.Application) error {
 		// We have the recovery queue bail out: only if we are doing forced placement
 		// Recovery rule is last in the list. Recovery queue cannot be returned by other rules.
 		// We do not want to trigger any checks for this queue.
-		if queueName == common.RecoveryQueueFull {
+		if common.IsRecoveryQueue(queueName) {
 			if app.IsCreateForced() {
 				log.Log(log.SchedApplication).Info("Placing application in recovery queue",
 					zap.String("application", app.ApplicationID))
